@@ -31,20 +31,21 @@ var tlsClientConf = &tls.Config{InsecureSkipVerify: true} //nolint:gosec
 
 // runExchange delivers the exchange to the worker at ports p and returns a coarse response class (coverage only;
 // the verdict never depends on it).
-func runExchange(e *Exchange, p Ports, o execOpts) string {
+// closed reports that the server itself ended the exchange (closed every connection) - only known for TCP/TLS.
+func runExchange(e *Exchange, p Ports, o execOpts) (class string, closed bool) {
 	switch e.Seed.Transport {
 	case tTCP, tTLS:
 		return runTCP(e, p, o)
 	case tUDP:
-		return runUDP(e, p, o)
+		return runUDP(e, p, o), false
 	case tSRT:
-		return runSRT(e, p, o)
+		return runSRT(e, p, o), false
 	case tMoQ:
-		return runMoQ(e, p, o)
+		return runMoQ(e, p, o), false
 	case tMoQW:
-		return runMoQW(e, p, o)
+		return runMoQW(e, p, o), false
 	}
-	return "unknown-transport"
+	return "unknown-transport", false
 }
 
 func dialRetry(addr string) (net.Conn, error) {
@@ -62,7 +63,7 @@ func dialRetry(addr string) (net.Conn, error) {
 
 type halfCloser interface{ CloseWrite() error }
 
-func runTCP(e *Exchange, p Ports, o execOpts) string {
+func runTCP(e *Exchange, p Ports, o execOpts) (string, bool) {
 	ws := e.Materialize(nil)
 	addr := p.addr(e.Seed.Port)
 	var conns []net.Conn
@@ -151,19 +152,20 @@ func runTCP(e *Exchange, p Ports, o execOpts) string {
 		_ = c.SetReadDeadline(deadline)
 	}
 	wg.Wait()
+	closedByServer := time.Now().Before(deadline) && len(conns) > 0
 	for _, c := range conns {
 		if c != nil {
 			c.Close()
 		}
 	}
 	if class != "" {
-		return class
+		return class, false
 	}
 	var parts []string
 	for _, b := range resp {
 		parts = append(parts, classifyTCP(e.Seed, b.Bytes()))
 	}
-	return strings.Join(parts, "+")
+	return strings.Join(parts, "+"), closedByServer
 }
 
 // classifyTCP summarises the answer: status codes for text protocols, size class for binary ones.
